@@ -3,7 +3,7 @@
    run guarantees, that the library's own path check and status constructor mean what the rule assumes, and that the
    single-tree planner skeleton can only produce admissible reports — for every history of extension attempts. *)
 From Coq Require Import List ZArith Bool.
-From OmplV Require Import LedgerModel LedgerProofs MotionModel MotionProofs.
+From OmplV Require Import LedgerModel LedgerProofs MotionModel MotionProofs EitModel EitProofs.
 Import ListNotations.
 Local Open Scope Z_scope.
 
@@ -42,11 +42,23 @@ Theorem C01_tree_planner_reports_admissible : forall (mv : Z -> Z -> bool) ops r
   (forall a b, In (a, b) (accepted_motions t) -> mv a b = true).
 Proof. exact tree_report_admissible. Qed.
 
+(* EIT*'s multi-resolution edge validation (EitModel.v: isValidAtResolution / couldBeValid / isValid): whatever sparse
+   levels an edge went through before, when it is whitelisted every full-resolution position i / F, 0 < i < F, has been
+   tested in the call that whitelisted it (the breadth-first midpoint walk visits every index exactly once) *)
+Theorem C01_eitstar_whitelisted_edge_fully_tested : forall levels full performed tests,
+  (1 <= full)%nat -> history full performed levels = (tests, true) ->
+  forall i, (1 <= i <= full - 1)%nat -> In (i, full) tests.
+Proof. exact whitelisted_edge_fully_tested. Qed.
+Theorem C01_eitstar_walk_visits_every_index_once : forall c, (1 <= c)%nat -> Permutation.Permutation (order c) (seq 1 c).
+Proof. exact order_perm. Qed.
+
 Print Assumptions C01_admission_sound.
 Print Assumptions C01_status_constructor.
 Print Assumptions C01_path_check_meaning.
 Print Assumptions C01_accepted_motion_pointwise_valid.
 Print Assumptions C01_tree_planner_reports_admissible.
+Print Assumptions C01_eitstar_whitelisted_edge_fully_tested.
+Print Assumptions C01_eitstar_walk_visits_every_index_once.
 
 (* non-vacuity: a concrete admitted run, a rejected one (path state outside the bounds), and a grown tree *)
 Example C01_nonvacuous :
@@ -58,3 +70,14 @@ Example C01_nonvacuous :
   adjudicate (mkRun [(1, true, true)] ST_TIMEOUT true 0 1 false 0 1 [] [] [] true true) = Vpath_without_status /\
   report_path (fold_left (fun t pc => extend (fun a b => negb (b =? 13)) t (fst pc) (snd pc)) [(1, 5); (5, 7); (9, 8); (5, 13); (7, 11); (1, 7)] (mkT 1 [])) 11 = [1; 5; 7; 11].
 Proof. vm_compute. repeat split. Qed.
+
+(* the defect at the pinned commit (repaired in /repo): the checks made at sparser levels were always skipped, although
+   they had been made at other positions.  Initial sparse count 4, levels 4, 9, 19, then the full-resolution check of an
+   edge of 30 segments: the edge is whitelisted although no state in the first fifth of it was ever tested (a stretch of
+   6 resolution lengths); with the repaired rule every stretch is covered within one *)
+Example C01_eitstar_orig_refuted :
+  snd (history_orig 30 0 (schedule 4 3 30)) = true /\
+  covered_within 5 30 (fst (history_orig 30 0 (schedule 4 3 30))) = false /\
+  existsb (fun p => Nat.ltb (fst p * 5) (snd p)) (fst (history_orig 30 0 (schedule 4 3 30))) = false /\
+  covered_within 1 30 (fst (history 30 0 (schedule 4 3 30))) = true.
+Proof. vm_compute. repeat split; reflexivity. Qed.
